@@ -1,4 +1,5 @@
 import A5.Lemmas.HilbertOrient
+import A5.Lemmas.PentagonCentre
 /-! # C17 — within a quintant, curve position ↦ cell is a bijection, and locating a cell returns its position
 
 "For every curve depth n and each of the six curve orientations, the 4^n positions map to 4^n pairwise
@@ -17,10 +18,18 @@ The cell of position `s` is represented by its *anchor* `a = sToAnchor s n o` (i
 pair) and the open unit lattice triangle `anchorTri a = a.offset + T(a.flips)` (`InT`, four triangle shapes):
 the pentagon of the cell is drawn inside this triangle by `getPentagonVertices`.
 
-NOT covered here (handled separately, it is a numeric fact about the runtime float constants): that the
-pentagon centre computed by `getPentagonVertices` from the `f64` constants lies strictly inside
-`anchorTri a` with a margin that absorbs the rounding of the `f64` evaluation of `ij_to_s`.  T5 says that
-*every* point strictly inside the triangle is located at `s` in exact arithmetic. -/
+The pentagon layer (T12-T15): `A5.PG.pentagonQ a` is the pentagon `get_pentagon_vertices` draws for anchor `a` in
+the lattice frame of the quintant (`A5/Model/PentagonG.lean`: generic twin of the `Float` model, tied to it by
+`pentagonLocal_tie`), evaluated in EXACT rational arithmetic on the `f64` constants the running library computes at
+start-up (`A5.Gen.Runtime`, regenerated from the running code and cross-checked bit-for-bit on every check run).
+T12 proves that its centre (`get_center`, then `face_to_ij`) lies strictly inside `anchorTri a`, more than 0.14
+lattice units from every side, for every position of every depth; T13 that locating that centre returns `s`;
+T14 that the `4^n` pentagons are pairwise distinct; T15 that all centres lie in the quintant triangle.
+
+NOT covered (the float residue): that the `f64` evaluation of the same expressions stays within the 0.14 margin
+of the exact one (the rounding error of five additions and a 2x2 product is about 1e-16 relative to coordinates
+below 2^30, i.e. below 1e-6 lattice units; this is measured on every run by the C17 suite, not proved), and the
+final scale by `2^-res` and quintant rotation, which C17 ("within a quintant") does not involve. -/
 namespace A5.C17
 open A5 A5.HilbertLocate
 
@@ -154,6 +163,78 @@ theorem ijToS_total (L : Lits α) (x y : α) (n o : Nat) (hn : n ≤ 30) (ho : o
   ⟨_, ijToS_eq L x y n o hn ho, A5.ijToS_lt L x y n o _ (ijToS_eq L x y n o hn ho)⟩
 
 end generic
+
+/-! ## positions ↔ pentagons (exact arithmetic on the runtime constants) -/
+
+/-- the offsets of every anchor of the curve are within `0 .. 2^n` -/
+theorem anchor_offset_range (n o s : Nat) (hn : n ≤ 30) (ho : o < 6) (hs : s < 4 ^ n) (a : Anchor)
+    (ha : sToAnchor s n o = .ok a) :
+    (-1 ≤ a.offset.1 ∧ a.offset.1 ≤ 2 ^ n + 1) ∧ (-1 ≤ a.offset.2 ∧ a.offset.2 ≤ 2 ^ n + 1) := by
+  obtain ⟨a', ha', hF, _⟩ := A5.locate_anchor ℚ n o s hn ho hs
+  cases Outcome.ok.inj (ha.symm.trans ha')
+  have h := anchor_in_quintant ℚ n o s hn ho hs a ha _ _ (anchorTri_nonempty (K := ℚ) a hF)
+  obtain ⟨h1, h2, h3⟩ := h
+  have e : ∀ z : Int, ((z : ℚ) ≤ 2 ^ n + 1) → z ≤ 2 ^ n + 1 := by
+    intro z hz; exact_mod_cast hz
+  have e' : ∀ z : Int, ((-1 : ℚ) ≤ (z : ℚ)) → -1 ≤ z := by
+    intro z hz; exact_mod_cast hz
+  rcases hF with hf | hf | hf | hf <;> rewrite [hf] at h1 h2 h3 <;>
+    simp only [interiorPt, Prod.mk.injEq, if_true, if_false, and_false, false_and, and_self,
+      show ((1 : Int) = -1) = False from by decide, show ((-1 : Int) = 1) = False from by decide] at h1 h2 h3 <;>
+    exact ⟨⟨e' _ (by linarith), e _ (by linarith)⟩, ⟨e' _ (by linarith), e _ (by linarith)⟩⟩
+
+/-- T12. `centre_in_anchor_triangle`: for every depth `n ≤ 30`, orientation and position, the exact centre of the
+pentagon drawn for position `s` lies strictly inside the lattice triangle of its anchor. -/
+theorem centre_in_anchor_triangle (n o s : Nat) (hn : n ≤ 30) (ho : o < 6) (hs : s < 4 ^ n) :
+    ∃ a, sToAnchor s n o = .ok a ∧ anchorTri a (PG.centreIJ a).1 (PG.centreIJ a).2 := by
+  obtain ⟨a, ha, hF, _⟩ := A5.locate_anchor ℚ n o s hn ho hs
+  obtain ⟨⟨l1, u1⟩, ⟨l2, u2⟩⟩ := anchor_offset_range n o s hn ho hs a ha
+  have hp : (2 : Int) ^ n + 1 ≤ 2 ^ 31 := by
+    have : (2 : Int) ^ n ≤ 2 ^ 30 := pow_le_pow_right₀ (by norm_num) hn
+    omega
+  refine ⟨a, ha, PG.centreIJ_in_anchorTri a hF ⟨by omega, by omega⟩ ⟨by omega, by omega⟩⟩
+
+/-- T13. `centre_located`: "locating the centre of the pentagon at position `s` returns `s`" — in exact arithmetic,
+for the pentagon built from the constants the library really uses. -/
+theorem centre_located (n o s : Nat) (hn : n ≤ 30) (ho : o < 6) (hs : s < 4 ^ n) :
+    ∃ a, sToAnchor s n o = .ok a ∧
+      ijToS fieldLits (PG.centreIJ a).1 (PG.centreIJ a).2 n o = .ok s := by
+  obtain ⟨a, ha, hc⟩ := centre_in_anchor_triangle n o s hn ho hs
+  obtain ⟨a', ha', _, h⟩ := A5.locate_anchor ℚ n o s hn ho hs
+  cases Outcome.ok.inj (ha.symm.trans ha')
+  exact ⟨a, ha, h _ _ hc⟩
+
+/-- T14. `pentagons_distinct`: different positions get different pentagons (already their centres differ). -/
+theorem pentagons_distinct (n o s t : Nat) (hn : n ≤ 30) (ho : o < 6) (hs : s < 4 ^ n) (ht : t < 4 ^ n) (hne : s ≠ t)
+    (a b : Anchor) (ha : sToAnchor s n o = .ok a) (hb : sToAnchor t n o = .ok b) :
+    PG.centreIJ a ≠ PG.centreIJ b ∧ PG.pentagonQ a ≠ PG.pentagonQ b := by
+  have key : PG.centreIJ a ≠ PG.centreIJ b := by
+    intro h
+    obtain ⟨a', ha', ha2⟩ := centre_located n o s hn ho hs
+    obtain ⟨b', hb', hb2⟩ := centre_located n o t hn ho ht
+    cases Outcome.ok.inj (ha.symm.trans ha')
+    cases Outcome.ok.inj (hb.symm.trans hb')
+    rewrite [h] at ha2
+    exact hne (Outcome.ok.inj (ha2.symm.trans hb2))
+  refine ⟨key, fun h => key ?_⟩
+  unfold PG.centreIJ PG.centreQ
+  rewrite [h]
+  rfl
+
+/-- T15. `centres_in_quintant`: every pentagon centre lies in the (open) quintant triangle
+`{x > 0, y > 0, x + y < 2^n}` of lattice coordinates. -/
+theorem centres_in_quintant (n o s : Nat) (hn : n ≤ 30) (ho : o < 6) (hs : s < 4 ^ n) (a : Anchor)
+    (ha : sToAnchor s n o = .ok a) :
+    0 < (PG.centreIJ a).1 ∧ 0 < (PG.centreIJ a).2 ∧ (PG.centreIJ a).1 + (PG.centreIJ a).2 < 2 ^ n := by
+  obtain ⟨a', ha', hc⟩ := centre_in_anchor_triangle n o s hn ho hs
+  cases Outcome.ok.inj (ha.symm.trans ha')
+  exact anchor_in_quintant ℚ n o s hn ho hs a ha _ _ hc
+
+/-- T12/T13 on a concrete position, evaluated independently of the theorems: the exact centre of the pentagon of
+position 6, depth 2, orientation 3 and where `ij_to_s` puts it -/
+example : sToAnchor 6 2 3 = .ok ⟨1, (3, 0), (1, -1)⟩ ∧
+    ijToS fieldLits (PG.centreIJ ⟨1, (3, 0), (1, -1)⟩).1 (PG.centreIJ ⟨1, (3, 0), (1, -1)⟩).2 2 3 = .ok 6 := by
+  decide +kernel
 
 /-! ## non-vacuity: concrete instances at depth 2, orientations 3 (`WU`: reverse + flipIJ) and 5 (`WV`: invertJ) -/
 
